@@ -483,9 +483,17 @@ def helper_ret(prog, callee):
         return _HELPER[callee]
     _HELPER[callee] = None
     b = prog.bodies.get(callee)
-    if b is None or b.kind != "Fn" or b.j.get("is_pub") or b.j.get("impl_trait") or b.argc == 0:
+    if b is None or b.kind not in ("Fn", "AssocFn") or b.j.get("is_pub") or b.j.get("impl_trait") or b.argc == 0:
         return None
-    if not all(_plain_ty(b.locals[i]["ty"]) for i in range(0, b.argc + 1)):
+    # the result is plain data; the parameters are plain data or shared references (`&self` of a private method):
+    # nothing the helper could modify
+    def _param_ok(ty):
+        if _plain_ty(ty):
+            return True
+        if ty.get("k") == "ref":
+            return not ty.get("m")
+        return ty.get("k") in ("adt", "tuple")        # by value: the caller's copy is not affected
+    if not _plain_ty(b.locals[0]["ty"]) or not all(_param_ok(b.locals[i]["ty"]) for i in range(1, b.argc + 1)):
         return None
     if b.back_edges() or any(blk["t"]["k"] == "switch" for i, blk in enumerate(b.blocks) if i in b.reachable() and not blk["cleanup"]):
         return None
